@@ -287,14 +287,23 @@ Definition scall_eqb (a b : scall) : bool :=
 Definition spage_eqb (a b : spage) : bool :=
   list_eqb String.eqb (p_items a) (p_items b) && String.eqb (p_token a) (p_token b) && String.eqb (p_attrs a) (p_attrs b).
 
-(* observed (items, calls, pages, final attrs) = model outcome *)
-Definition outcome_matches (is_async : bool) (first : scall) (resp0 : spage) (script : list spage)
-           (items : list string) (calls : list scall) (pages : list spage) (final : option spage) : bool :=
+(* an "items" run observes (items yielded, calls at the server, attributes after exhaustion);
+   a "pages" run observes (pages with the pager's own attributes at each yield, calls, attributes after exhaustion) *)
+Definition items_run_matches (is_async : bool) (first : scall) (resp0 : spage) (script : list spage)
+           (items : list string) (calls : list scall) (final : option spage) : bool :=
   match iterate is_async first resp0 script with
   | None => false
   | Some o =>
     list_eqb String.eqb (o_items o) items && list_eqb scall_eqb (o_calls o) calls &&
-    list_eqb spage_eqb (o_pages o) pages && option_eqb spage_eqb (o_final o) final
+    option_eqb spage_eqb (o_final o) final
+  end.
+Definition pages_run_matches (is_async : bool) (first : scall) (resp0 : spage) (script : list spage)
+           (pages : list spage) (calls : list scall) (final : option spage) : bool :=
+  match iterate is_async first resp0 script with
+  | None => false
+  | Some o =>
+    list_eqb spage_eqb (o_pages o) pages && list_eqb scall_eqb (o_calls o) calls &&
+    option_eqb spage_eqb (o_final o) final
   end.
 
 Definition lines_eqb (a b : list string) : bool := list_eqb String.eqb a b.
